@@ -494,5 +494,6 @@ func init() {
 		r.Assume = []string{"only layout data the subsetter declares supported: GSUB 1.1 / 4.1, GPOS 2.1, no GDEF", "characters mapping to glyphs that were appended by the closure may or may not be mapped"}
 		c10Subset(r)
 		c10Repeat(r)
+		c10MapOrder(r)
 	})
 }
